@@ -196,6 +196,11 @@ CONFLICT_LISTS = {"always_true": (["CA"], ["CB"]), "always_false": (["CA"], ["CB
                   "untyped_calls_exclude": (["wlib"], ["other"]), "deprecated_calls_exclude": (["wlib"], ["other"])}
 INT_VALUES = {"many_errors_threshold": [7], "sqlite_num_shards": [4], "num_workers": [2], "verbosity": [1, 2]}
 # a build under these would leave the sandboxed, single-process, non-interactive regime; their snapshots are still compared
+# every build under these is a cold one (cache off): complete builds only for the plain spelling of each source
+SLOW_BUILD = {"incremental"}
+# besides mypy.options.OPTIONS_AFFECTING_CACHE: a non-default global value of these also makes the first build cold
+COLD_WHEN_GLOBAL = {"python_version", "incremental", "sqlite_cache", "sqlite_num_shards", "cache_fine_grained", "logical_deps",
+                    "skip_version_check", "custom_typing_module", "mypy_path"}
 NO_BUILD = {"num_workers", "pdb", "install_types", "non_interactive", "python_executable", "cache_dir", "custom_typeshed_dir",
             "bazel", "quickstart_file", "raise_exceptions", "dump_graph", "dump_deps", "semantic_analysis_only"}
 
@@ -325,6 +330,7 @@ def plan_group(e: dict[str, Any], tab: dict[str, Any], rng: random.Random, thoro
     toml_ok = bool(e.get("documented") or e.get("toml_typed"))
     per_module = bool(e.get("per_module")) and config_ok
     build = k not in NO_BUILD
+    tb = thorough and k not in SLOW_BUILD  # complete builds for every spelling?
     runs: list[dict[str, Any]] = [{"id": "baseline", "cls": "base", "vid": "-", "src": "none", "spelling": "-",
                                    "config": ini_file("mypy.ini", [])}]
     notes: list[str] = []
@@ -334,8 +340,8 @@ def plan_group(e: dict[str, Any], tab: dict[str, Any], rng: random.Random, thoro
     def add(vid: str, cls: str, src: str, spelling: str, v: Any, **kw: Any) -> None:
         r = {"id": f"{vid}|{src}|{spelling}", "cls": cls, "vid": vid, "src": src, "spelling": spelling,
              "value": expected_value(e, v), **kw}
-        if cls == "global" and not full and expected_value(e, v) != default:
-            r["no_build"] = True
+        if cls == "global" and expected_value(e, v) != default and not (thorough or (full and vid == vals[0][0])):
+            r["no_build"] = True  # quick tier: one cold build per sampled option (its first non-default value)
         runs.append(r)
 
     for vid, v in vals:
@@ -384,20 +390,20 @@ def plan_group(e: dict[str, Any], tab: dict[str, Any], rng: random.Random, thoro
         if not thorough and is_default:
             spell = spell[:1]
         for sk, key, itext, ttext in spell:
-            nb = {"no_build": True} if (not thorough and sk != "plain") else {}
+            nb = {"no_build": True} if (not tb and sk != "plain") else {}
             if "~" not in sk or not sk.endswith(("~str", "~float")):
                 add(vid, "global", "ini", sk, v, config=ini_file("mypy.ini", [(key, itext)]), **common_kw, **nb)
             if toml_ok:
                 add(vid, "global", "toml", sk, v, config=toml_file([(key, ttext)]), **common_kw, **nb)
         add(vid, "global", "cfg", "plain", v, config=ini_file("setup.cfg", [(spell[0][1], spell[0][2])]), **common_kw,
-            **({"no_build": True} if not thorough else {}))
+            **({"no_build": True} if not tb else {}))
         # ---- per-module sources: [mypy-w], [[tool.mypy.overrides]] module="w", # mypy: in w.py
         if per_module:
             mkw = {"eff_flags": [], "cache_tag": ""}
             for sk, key, itext, ttext in spell:
                 if sk.startswith("plain~") and not thorough:
                     continue
-                nb = {"no_build": True} if (not thorough and sk != "plain") else {}
+                nb = {"no_build": True} if (not tb and sk != "plain") else {}
                 if not sk.endswith(("~str", "~float")):
                     add(vid, "module", "sec-ini", sk, v, config=ini_file("mypy.ini", [], [("w", [(key, itext)])]), **mkw, **nb)
                 add(vid, "module", "sec-toml", sk, v, config=toml_file([], [("w", [(key, ttext)])]), **mkw, **nb)
@@ -446,8 +452,8 @@ def plan_group(e: dict[str, Any], tab: dict[str, Any], rng: random.Random, thoro
                     eff = cli(g) or []
                 expect = dict(expect)
                 expect.setdefault("lo", lo)
-                nb = {"no_build": True} if (not thorough and "line1" not in kw) else {}
-                if "line1" in kw and not full and g is not None and g != default:
+                nb = {"no_build": True} if (not tb and "line1" not in kw) else {}
+                if "line1" in kw and g is not None and g != default and not (thorough or (full and g == expected_value(e, vals[0][1]))):
                     notes.append(f"{k}: quick tier, option outside the seeded full-build sample: inline conflicts over a non-default global value not run")
                     return
                 conflicts.append({"id": f"conflict|{name}|{pid}", "cls": "conflict", "vid": pid, "src": name, "spelling": "-",
